@@ -1,7 +1,7 @@
 SPECIFICATION Spec
 CONSTANTS
   TW = 2
-  MaxN = 9
+  MaxN = 6
   Deltas = {0, 1, 3}
   Guard1 = TRUE
   Guard4 = TRUE
